@@ -1,11 +1,90 @@
 import Driver.Wire
+import Sio.Model.Sched
 open Lean (Json)
 namespace Sio.KSched
 open Sio.Wire
+open Sio.Sched
 
-/-- stub: replaced by the kernel's line-protocol handler -/
-def step (_ : Unit) (_ : Json) : Except String (Unit × Json) := throw "kernel not implemented"
+/-
+  Line protocol of `sd_sched` (`siodriver sched`).
 
-def main : IO Unit := lineLoop () step
+  in : {"tasks": [{"kind": "api"|"clientDisc"|"lost"|"conn", "ns": [n, …]}, …],
+        "conn": [n, …]      namespaces (numbers) on which the sid is connected at the start,
+        "others": [n, …]    namespaces kept alive by other clients,
+        "sched": [i, …]     task indices,
+        "atomic": bool}     true = asyncio (check+mark one step), false = threads
+  out: {"calls":   [[n, [kind, …]], …]   disconnect-handler invocations per namespace, oldest first,
+        "raised":  [i, …]                tasks that ended with an exception,
+        "contained": k                   exceptions swallowed by _handle_eio_disconnect,
+        "residue": [[n, mem, pend], …]   what is left in rooms / pending_disconnect,
+        "sends":   [[n, k], …],
+        "pcs":     [pc, …]               final program counters,
+        "trace":   [pc, …]               pc of the scheduled task after each step ("-" = no such task),
+        "serial":  bool                  gateSerial (threads reading of the schedule),
+        "allDone": bool}
+-/
+
+def kindOf (s : String) : Except String Kind :=
+  if s == "api" then pure .api
+  else if s == "clientDisc" then pure .clientDisc
+  else if s == "lost" then pure .lost
+  else if s == "conn" then pure .conn
+  else throw s!"bad kind {s}"
+
+def kindName : Kind → String
+  | .api => "api" | .clientDisc => "clientDisc" | .lost => "lost" | .conn => "conn"
+
+def pcName : Pc → String
+  | .check => "check" | .mark => "mark" | .send => "send" | .handler => "handler"
+  | .cleanup => "cleanup" | .chandler => "chandler" | .csend => "csend" | .done => "done"
+  | .raised => "raised"
+
+def natsOf (j : Json) : Except String (List Nat) := do
+  let a ← j.getArr?
+  a.toList.mapM (fun x => x.getNat?)
+
+def natJ (n : Nat) : Json := Json.num (n : Nat)
+
+def insertSorted (n : Nat) : List Nat → List Nat
+  | [] => [n]
+  | m :: r => if n < m then n :: m :: r else if n = m then m :: r else m :: insertSorted n r
+
+def handle (_ : Unit) (j : Json) : Except String (Unit × Json) := do
+  let tj ← (← j.getObjVal? "tasks").getArr?
+  let tasks ← tj.toList.mapM (fun t => do
+    let k ← kindOf (← (← t.getObjVal? "kind").getStr?)
+    let ns ← natsOf (← t.getObjVal? "ns")
+    pure (k, ns))
+  let conn ← natsOf (← j.getObjVal? "conn")
+  let others ← match j.getObjVal? "others" with
+    | .ok v => natsOf v
+    | .error _ => pure []
+  let sched ← natsOf (← j.getObjVal? "sched")
+  let atomic ← (← j.getObjVal? "atomic").getBool?
+  let st0 := mkSt tasks conn others
+  let (final, trace) := sched.foldl (fun (acc : St × List Json) i =>
+    let s' := step atomic acc.1 i
+    let e := match s'.tasks[i]? with
+      | some t => Json.str (pcName t.pc)
+      | none => Json.str "-"
+    (s', e :: acc.2)) (st0, [])
+  let univ := (conn ++ others ++ tasks.flatMap (fun p => p.2)).foldl (fun acc n => insertSorted n acc) []
+  let raised := (final.tasks.zipIdx.filter (fun p => p.1.pc == .raised)).map (fun p => natJ p.2)
+  pure ((), Json.mkObj [
+    ("calls", Json.arr (univ.map (fun n =>
+      Json.arr #[natJ n, Json.arr ((final.sh.calls n).reverse.map (fun k => Json.str (kindName k))).toArray])).toArray),
+    ("raised", Json.arr raised.toArray),
+    ("contained", natJ final.sh.contained),
+    ("residue", Json.arr (univ.map (fun n =>
+      Json.arr #[natJ n, Json.bool (final.sh.mem n), natJ (final.sh.pend n)])).toArray),
+    ("sends", Json.arr (univ.map (fun n => Json.arr #[natJ n, natJ (final.sh.sends n)])).toArray),
+    ("pcs", Json.arr (final.tasks.map (fun t => Json.str (pcName t.pc))).toArray),
+    ("trace", Json.arr trace.reverse.toArray),
+    ("serial", Json.bool (gateSerial st0 sched)),
+    ("allDone", Json.bool (allDone final))])
+
+def step := handle
+
+def main : IO Unit := lineLoop () handle
 
 end Sio.KSched
